@@ -225,6 +225,12 @@ theorem multi_examples :
     bindGenMulti { isArray := true, cf := "multi", ty := .int 64, required := true } none = .reject ∧
     bindGenMulti { isArray := true, cf := "multi", ty := .str } (some ["a,b".toList]) = .many [.s "a,b"] := by decide
 
+/-- allowEmptyValue: an empty value passes even for a required parameter (and binds nothing); without it, it is rejected -/
+theorem allow_empty_passes (p : PSpec) (hr : p.required = true) (hp : p.isArray = false) :
+    (p.allowEmpty = true → bindGen p (some [[]]) = .absent ∧ bindRef p (some [[]]) = .absent) ∧
+    (p.allowEmpty = false → bindGen p (some [[]]) = .reject ∧ bindRef p (some [[]]) = .reject) := by
+  constructor <;> intro ha <;> simp [bindGen, bindRef, hr, hp, ha, lastOf, emptyCase]
+
 theorem required_enforced (p : PSpec) (hr : p.required = true) : bindGen p none = .reject ∧ bindRef p none = .reject := by
   simp [bindGen, bindRef, hr]
 
